@@ -5,12 +5,15 @@
      ROpaque2/3 id bb : a Go shape without a model; its values come from an environment
      RMesh2 segs bb   : MeshSDF2 (Polygon2D / Mesh2D): the clipped line segments held by the
                         quadtree leaves and the stored box; evaluated as MeshSDF2Slow over them
-     RCache2 s        : Cache2D (same values, same box).
+     RCache2 s        : Cache2D (same values, same box)
+     RPrim2 p         : the parameter-only primitives of Sdf/Prim2X.v (FlatFlankCam2D, ThreeArcCam2D,
+                        Flange1, ArcSpiral2D) with their constructor arguments
+     RRack2 t p l bb  : GearRackSDF2: the tooth operand, the stored pitch, half length and box.
    interp maps a tree to the object the Go constructors build (the k_xxx of Sdf/Shape.v);
    rmap2/rmap3 change the number system of every parameter (Q -> R for the theorems, Q -> float
    for the replay against Go). *)
 From Coq Require Import ZArith NArith List Bool.
-From Sdfx Require Import Num.Ops Geo.Vec Geo.Box Geo.Mat Sdf.Union2 Sdf.Shape Sdf.Poly.
+From Sdfx Require Import Num.Ops Geo.Vec Geo.Box Geo.Mat Sdf.Union2 Sdf.Shape Sdf.Poly Sdf.Prim2X.
 From Sdfx Require Sdf.Screw.
 Import ListNotations.
 
@@ -65,6 +68,8 @@ Section Reify.
   | RElongate2 (s : RShape2) (h : V2)
   | RUnion2 (mk : MinK) (l : list RShape2)
   | RSlice2 (s : RShape3) (a n : V3)
+  | RPrim2 (p : Prim2 O)
+  | RRack2 (tooth : RShape2) (pitch length : T) (bb : Box2)
   with RShape3 :=
   | ROpaque3 (id : N) (bb : Box3)
   | RSphere (r : T) | RBox3D (size : V3) (round : T) | RCylinder (h r round : T) | RCone (h r0 r1 round : T)
@@ -107,6 +112,8 @@ Section Reify.
       | RElongate2 s h => obind (interp2 s) (fun o => k_elongate2 o h)
       | RUnion2 mk l => obind (omap_all (map interp2 l)) (fun os => k_union2 mk os)
       | RSlice2 s a n => obind (interp3 s) (fun o => k_slice2 o a n)
+      | RPrim2 p => k_prim2 p
+      | RRack2 tooth pitch length bb => obind (interp2 tooth) (fun o => k_rack2 o pitch length bb)
       end
     with interp3 (s : RShape3) : option Obj3 :=
       match s with
@@ -142,9 +149,9 @@ Section Reify.
   Fixpoint opaque_free2 (s : RShape2) : bool :=
     match s with
     | ROpaque2 _ _ => false
-    | RMesh2 _ _ | RCircle _ | RBox2D _ _ | RLine2D _ _ => true
+    | RMesh2 _ _ | RCircle _ | RBox2D _ _ | RLine2D _ _ | RPrim2 _ => true
     | RCache2 s | ROffset2 s _ | RCut2 s _ _ | RTransform2 s _ | RScaleUniform2 s _ | RArray2 _ s _ _ _
-    | RRotateUnion2 _ s _ _ | RRotateCopy2 s _ | RElongate2 s _ => opaque_free2 s
+    | RRotateUnion2 _ s _ _ | RRotateCopy2 s _ | RElongate2 s _ | RRack2 s _ _ _ => opaque_free2 s
     | RIntersect2 _ s0 s1 | RDifference2 _ s0 s1 => opaque_free2 s0 && opaque_free2 s1
     | RUnion2 _ l => forallb opaque_free2 l
     | RSlice2 s _ _ => opaque_free3 s
@@ -202,6 +209,8 @@ Section Map.
     | RElongate2 s h => RElongate2 (rmap2 s) (map_v2 h)
     | RUnion2 mk l => RUnion2 (map_mink mk) (map rmap2 l)
     | RSlice2 s a n => RSlice2 (rmap3 s) (map_v3 a) (map_v3 n)
+    | RPrim2 p => RPrim2 (map_prim2 f p)
+    | RRack2 tooth pitch length bb => RRack2 (rmap2 tooth) (f pitch) (f length) (map_box2 bb)
     end
   with rmap3 (s : RShape3 A) : RShape3 B :=
     match s with
